@@ -321,6 +321,32 @@ let do_absm f line =
       if ser (absn n ta) <> r then fail "oracle:C19:abs-macro" "" line
   | _ -> fail "format" "absm" line
 
+
+(* ---------- metamorphic lines: UD as a fresh free variable, free indices shifted by 2^32 *)
+let rec replace_ud k depth = function
+  | Var O -> Var (nat_of_int (depth + k))
+  | Var n -> Var n
+  | Abs b -> Abs (replace_ud k (depth + 1) b)
+  | App (l, r) -> App (replace_ud k depth l, replace_ud k depth r)
+
+let do_meta kind f line =
+  match f with
+  | [what; _o; _limit; _input; r1; c1; r2; c2] ->
+      let tags = if what = "apply" then ["C02"; "C08"] else ["C01"; "C08"] in
+      if r1 = "panic" || r2 = "panic" then
+        List.iter (fun p -> fail ("oracle:" ^ p ^ ":panic") "implementation panicked" line) tags
+      else begin
+        let ok =
+          if kind = "meta-ud" then ser (replace_ud 40 0 (parse_term r1)) = r2 && c1 = c2
+          else r1 = r2 && c1 = c2 in
+        if not ok then
+          List.iter (fun p -> fail ("oracle:" ^ p ^ (if kind = "meta-ud" then ":ud-not-inert" else ":free-variable-renumbered"))
+                        (if kind = "meta-ud" then "replacing UD by a fresh free variable does not commute with the operation"
+                         else "shifting every free index by 2^32 does not commute with the operation") line) tags;
+        note_nontrivial (kind ^ _input ^ _o); if c1 <> "0" then sample line
+      end
+  | _ -> fail "format" kind line
+
 let json_escape s =
   let b = Buffer.create (String.length s + 8) in
   String.iter (fun c -> match c with
@@ -350,6 +376,9 @@ let () =
           | "ctor" :: r -> bump counts "ctor"; do_ctor r line
           | "appm" :: r -> bump counts "appm"; do_appm r line
           | "absm" :: r -> bump counts "absm"; do_absm r line
+          | "meta-ud" :: r -> bump counts "meta-ud"; do_meta "meta-ud" r line
+          | "meta-shift" :: r -> bump counts "meta-shift"; do_meta "meta-shift" r line
+          | "CRASH" :: r -> fail "oracle:crash" "the implementation crashed (stack overflow / abort) while running this suite" (String.concat " " r)
           | "HANG" :: r -> fail "oracle:hang" "implementation made no progress for 30 s" (String.concat " " r)
           | _ -> Extra.dispatch fail bump counts note_nontrivial sample f line
         with
